@@ -58,6 +58,10 @@ def gen(rng, tier, i):
     p.cfg('Port', '4000:telnet')
     p.cfg('MaxEvaluationCost', 500000)
     p.cfg('MaxInheritDepth', 4)
+    # the size of the object name table is a tuning knob: with a handful of buckets every chain holds several objects, so the
+    # chain operations (find with move-to-front, unlink of the first, a middle, the last entry) all run with a small population
+    hs = rng.choice((1, 2, 4, 8, 64, 0, 0))
+    if hs: p.cfg('ObjectHashSize', hs)
     p.opt('c08_walk', 1)
     p.opt('fault_exempt_master', 1)
     cls = 'model' if rng.random() < 0.4 else 'hooks'
